@@ -19,9 +19,13 @@ NA = {
  "C19": "'order-insensitive' refers to the order written in the file (an input permutation); Go's iteration order of the matrix maps cannot change a verdict, and C02 explores it regardless (DESIGN.md section 5)",
 }
 
-PENDING = {p: "claimed in DESIGN.md; its check is still under construction in this commit, so nothing is claimed yet" for p in ["C01"]}
+PENDING = {}
 
 CHECKS = {
+ "C01": dict(
+   level=("fault_enumeration", "ONLY the fault-reachable slice of C01: well-formed projects whose input channels (workflow file, local action metadata, local reusable workflow, actionlint.yaml, stdin) and directory operations are hit by seeded disk faults (torn/zeroed/duplicated/swapped/bit-flipped/rewritten content, read errors, stat/getwd/listing errors, stdin errors and short reads) at chosen operations of a concurrent run; decided: no panic in any task, no deadlock, termination, exit status in {0,1,3}, status 3 for unreadable inputs. The 'all byte strings' quantifier of the property is input fuzzing and is not decided by this technique.", "DESIGN.md section 4 (C01)"),
+   note="Trusts: virtual disk fault model (Linux errno values, fs.PathError), watchdog for hangs. Not covered: crafted-input crashes that no fault produces (e.g. `timeout-minutes: !!float nan`, CR-only line endings) - see DESIGN.md sections 4 and 9.",
+   technique="deterministic simulation with disk/stdin fault injection over seeded worlds and schedules; invariants: no panic/deadlock/hang, exit status rule"),
  "C15": dict(
    level=("exploration", "Seeded sweep of the process environment the simulator owns - virtual working directory, path spelling, repository layout (nested, sibling, second repository in the same invocation), argument mode, failing getwd - x generated paths/ignore configurations and -ignore flags, deciding the output against a small reference model (unfiltered list minus applicable matches, order kept; exit status rule). The property has no schedule of its own; what tests pin to one point (one cwd, one spelling) is swept here, with a race lane for the filter code shared by file goroutines.", "DESIGN.md section 4 (C15)"),
    note="Trusts: virtual disk / virtual cwd facade (os, path/filepath), doublestar and Go regexp as used by the reference model, the unfiltered run as the source of U. Symbolic links are not modelled by the virtual disk.",
